@@ -29,3 +29,7 @@ func init() {
 func init() {
 	register("C03", "", ruleP8, ruleS3, ruleF8size, ruleZ3, ruleP7, ruleF2, ruleN5, ruleP5)
 }
+
+func init() {
+	register("C18", "", ruleF8c, ruleF8a, ruleI1, ruleT5)
+}
